@@ -3,6 +3,9 @@ import Frp.Model.Udp
 import Frp.Model.Sudp
 import Frp.Model.UdpSrv
 import Frp.Model.SudpPx
+import Frp.Model.UdpBuf
+import Frp.Model.UdpLayers
+import Frp.Model.UdpWireGen
 import Frp.Props.C03
 /-
   Driver engine "udp": replays the harness trace (harness/eng_udp.go) on the Base64 / Udp models
@@ -126,6 +129,23 @@ def expectedU (ps k : Nat) (ds : List (Nat × Nat × Nat)) : List (List Entry) :
       if p.1.1 = i then some (entryOf (rd ps (tunnelReply (rd ps (tunnelPayload p.1.1 p.2 p.1.2.1 p.1.2.2)))))
       else none))
 
+/-- groups of `g` consecutive elements -/
+def groupsOf {α} (g : Nat) (l : List α) : List (List α) :=
+  let rec go (fuel : Nat) (l : List α) (acc : List (List α)) : List (List α) :=
+    match fuel, l with
+    | 0, _ => acc.reverse
+    | _, [] => acc.reverse
+    | fuel + 1, l => go fuel (l.drop (max g 1)) (l.take (max g 1) :: acc)
+  go l.length l []
+
+/-- burst op: what the sender of the work connection serialises when the datagrams arrive in bursts of `g` (all of a
+    burst are read into the ONE read buffer before the first is serialised) — computed on the explicit-buffer machine
+    `UdpBuf` in the mode of the code as it is (`Props/C03.buf_burst_delivers`) -/
+def burstWire (byRef : Bool) (ps g : Nat) (ds : List (Nat × Nat × Nat)) : List Entry :=
+  let tagged := (ds.zipIdx).map (fun p => (userAddr p.1.1, tunnelPayload p.1.1 p.2 p.1.2.1 p.1.2.2))
+  let s := UdpBuf.run byRef (UdpBuf.init ps 1024) ((groupsOf g tagged).flatMap UdpBuf.burst)
+  s.wire.filterMap (fun m => (contentOf m).map entryOf)
+
 /-- parse `B=…;U0=…;…;socks=n;mixed=m;ferr=f` -/
 def parseTunnelResult (k : Nat) (impl : String) : Option (List Entry × List (List Entry) × Bool) :=
   let parts := impl.splitOn ";"
@@ -166,7 +186,7 @@ def parseSTok (t : String) : Option STok :=
       match ((String.ofList rest).splitOn ".").map String.toNat? with
       | [some u, some l, some sd] =>
         if c = 'd' ∨ c = 'D' then some (.dgram u l sd)
-        else if c = 'r' then some (.reply u l sd) else none
+        else if c = 'r' ∨ c = 'R' then some (.reply u l sd) else none
       | _ => none
     | [] => none
 
@@ -277,7 +297,7 @@ def parseVTok (t : String) : Option VTok :=
       | [some u, some l, some sd] =>
         if c = 'd' then some (.dgram u l sd true)
         else if c = 'D' then some (.dgram u l sd false)
-        else if c = 'r' then some (.reply u l sd)
+        else if c = 'r' ∨ c = 'R' then some (.reply u l sd)
         else if c = 'n' then some (.noaddr u l sd)
         else if c = 'b' then some (.badc u l sd) else none
       | _ => none
@@ -509,6 +529,68 @@ def modelE2ev (k : Nat) (st : PSim) : String :=
     s!";U{u}={fmtEntries ((all.filter (fun e => e.1 = some (userAddr u))).filterMap (fun e => e.2.map entryOf))}"))
   s!"B={fmtEntries (cs.flatMap connB)}{ustr};socks={(cs.map (·.nextSock)).sum};mixed=0"
 
+/-! ### client side of a udp proxy fed a typed stream (harness/eng_udp_upx.go) -/
+
+inductive UTok
+  | dgram (u ln seed : Nat)     -- d / D
+  | ctl (ty : String)           -- c<Type>
+  | bare                        -- n: a UDPPacket frame without content and address
+
+def parseUTok (t : String) : Option UTok :=
+  if t = "n" then some .bare else
+  match t.toList with
+  | 'c' :: rest => some (.ctl (String.ofList rest))
+  | c :: rest =>
+    if c = 'd' ∨ c = 'D' then
+      match ((String.ofList rest).splitOn ".").map String.toNat? with
+      | [some u, some l, some sd] => some (.dgram u l sd)
+      | _ => none
+    else none
+  | [] => none
+
+def parseUScript (t : String) : Option (List UTok) :=
+  if t = "" then some [] else (t.splitOn ",").mapM parseUTok
+
+/-- the protocol's name of the type a `c` token stands for (`PingEmpty` is a Ping without fields) -/
+def ctlType (ty : String) : String := if ty = "PingEmpty" then "Ping" else ty
+
+structure USim where
+  E : List Entry := []          -- datagrams the backend must get
+  Rs : List Entry := []         -- answers the far end must read back
+  extra : Nat := 0              -- datagrams the backend gets that are shorter than any payload of the script
+  allowed : Nat := 0            -- … of these: caused by a message the real server end never writes (outside the domain)
+  keys : List (Option Addr) := []   -- udpConnMap keys that were dialled
+
+/-- one token through the client end AS THE SOURCE HAS IT (`UdpWire.genCfg.cli`, regenerated): its reader, then the
+    Forwarder (`Udp.stepCfwd`: GetContent, socket per RemoteAddr.String(), Write) -/
+def simUTok (ps : Nat) (st : USim) (i : Nat) (t : UTok) : USim :=
+  let cfg := UdpWire.genCfg
+  let (m, inDomain) : UdpWire.WMsg × Bool := match t with
+    | .dgram u ln seed => (.udp (packetOf (tunnelPayload u i ln seed) none (some (userAddr u))), true)
+    | .ctl ty => (.ctl (ctlType ty), cfg.srv.writes.contains (ctlType ty))
+    | .bare => (.udp UdpWire.emptyPacket, false)   -- ForwardUserConn tags every packet with the sender's address
+  match UdpWire.reads cfg.cli m with
+  | none => st
+  | some p =>
+    match contentOf p with
+    | none => st
+    | some b =>
+      let st := if st.keys.contains p.raddr then st else { st with keys := p.raddr :: st.keys }
+      if b.length ≥ 4 then { st with E := st.E ++ [entryOf b], Rs := st.Rs ++ [entryOf (rd ps (tunnelReply b))] }
+      else { st with extra := st.extra + 1, allowed := if inDomain then st.allowed else st.allowed + 1 }
+
+def simUScript (ps : Nat) (toks : List UTok) : USim :=
+  (toks.zipIdx).foldl (fun st p => simUTok ps st p.2 p.1) {}
+
+/-- parse `B=…;X=n;R=…;socks=n;bad=b` -/
+def parseUpxResult (impl : String) : Option (List Entry × Nat × List Entry × Bool) :=
+  match impl.splitOn ";" with
+  | [b, x, r, _, bd] =>
+    match (kv "B" b).bind parseEntries, (kv "X" x).bind String.toNat?, (kv "R" r).bind parseEntries, kv "bad" bd with
+    | some B, some X, some R, some bd => some (B, X, R, bd ≠ "0")
+    | _, _, _, _ => none
+  | _ => none
+
 /-! ### batches of decoded payloads that are all kept -/
 
 def parseItems (t : String) : Option (List (Nat × Nat)) :=
@@ -544,6 +626,40 @@ def parseBatchResult (w : Nat) (impl : String) : Option (List (List (List Nat)))
 
 end UdpEng
 open UdpEng
+
+/-- which pair of wrapper stacks the two ends of an op's UDPPacket connection build (Model/UdpLayers) -/
+inductive Leg | udpWork | sudpWork | sudpVisitor
+
+/-- do the two ends of the connection understand each other under the op's `enc=` / `comp=` setting?  Read off the
+    MODEL of the wrapper order (Props/C03 §10 proves it is `true` for every setting); where it were `false` the model
+    predicts that nothing arrives. -/
+def legOK (leg : Leg) (et ct : String) : Bool :=
+  let o : Layers.Opts := { enc := et == "enc=1", comp := ct == "comp=1", limSrv := false, limCli := false }
+  match leg with
+  | .udpWork => UdpLayers.compatible (UdpLayers.srvUdpWrap o) (UdpLayers.cliUdpWrap o)
+  | .sudpWork => UdpLayers.compatible (Layers.serverStack o) (UdpLayers.cliSudpWrap o)
+  | .sudpVisitor => UdpLayers.compatible (UdpLayers.visSudpWrap o.enc o.comp) (Layers.visitorServerStack o.enc o.comp)
+
+/-- the model's result of a tunnel-shaped op when nothing gets through -/
+def nothingTunnel (k : Nat) : String :=
+  s!"B={String.join ((List.range k).map (fun i => s!";U{i}="))};socks=0;mixed=0"
+
+/-- `tunnel` / `e2e` / `e2es` in bursts of `g` (withFerr: the restated pump reports frame errors) -/
+def burstStep (withFerr : Bool) (ok : Bool) (pst kt dt gt impl : String) : Verdict :=
+  match kv "ps" pst |>.bind String.toNat?, kv "k" kt |>.bind String.toNat?, kv "d" dt |>.bind parseDs,
+        kv "g" gt |>.bind String.toNat? with
+  | some ps, some k, some ds, some g =>
+    if ds.any (fun d => d.1 ≥ k ∨ d.2.1 < 4) ∨ g = 0 ∨ g > 1024 then .bad "burst datagram" else
+    -- the datagrams of a burst are all read before the first of them is serialised: the explicit-buffer machine
+    let E := burstWire false ps g ds
+    if !(C03.msEq E (expectedB ps ds)) then .bad "burst model" else
+    let model := if ok then modelTunnel ps k ds withFerr else nothingTunnel k
+    let prop := match parseTunnelResult k impl with
+      | some (B, Us, mixed) =>
+        some (C03.holdsOnBurst E B && C03.holdsOnTunnel (expectedB ps ds) B (expectedU ps k ds) Us mixed)
+      | none => some false
+    verdictOf model impl prop
+  | _, _, _, _ => .bad "burst"
 
 def udpStep (st : Unit) (tok : List String) (impl : String) : Unit × Verdict :=
   match tok with
@@ -587,30 +703,35 @@ def udpStep (st : Unit) (tok : List String) (impl : String) : Unit × Verdict :=
         | none => some false
       (st, verdictOf model impl prop)
     | _, _, _ => (st, .bad "tunnel")
-  | ["e2e", pst, _, _, kt, dt] =>
+  | ["tunnel", pst, kt, dt, gt] => (st, burstStep true true pst kt dt gt impl)
+  | ["e2e", pst, et, ct, kt, dt, gt] => (st, burstStep false (legOK .udpWork et ct) pst kt dt gt impl)
+  | ["e2es", pst, et, ct, kt, dt, gt] =>
+    (st, burstStep false (legOK .sudpWork et ct && legOK .sudpVisitor et ct) pst kt dt gt impl)
+  | ["e2e", pst, et, ct, kt, dt] =>
     -- same traffic through a real frps + frpc pair; encryption / compression are transparent
     match kv "ps" pst |>.bind String.toNat?, kv "k" kt |>.bind String.toNat?, kv "d" dt |>.bind parseDs with
     | some ps, some k, some ds =>
       if ds.any (fun d => d.1 ≥ k ∨ d.2.1 < 4) then (st, .bad "e2e datagram") else
-      let model := modelTunnel ps k ds false
+      let model := if legOK .udpWork et ct then modelTunnel ps k ds false else nothingTunnel k
       let prop := match parseTunnelResult k impl with
         | some (B, Us, mixed) => some (C03.holdsOnTunnel (expectedB ps ds) B (expectedU ps k ds) Us mixed)
         | none => some false
       (st, verdictOf model impl prop)
     | _, _, _ => (st, .bad "e2e")
-  | ["e2es", pst, _, _, kt, dt] =>
+  | ["e2es", pst, et, ct, kt, dt] =>
     -- same traffic through a real sudp tunnel (visitor + frps + sudp proxy) on one visitor connection:
     -- the visitor adds no cut beyond ForwardUserConn's (same packet size), one Forwarder generation
     match kv "ps" pst |>.bind String.toNat?, kv "k" kt |>.bind String.toNat?, kv "d" dt |>.bind parseDs with
     | some ps, some k, some ds =>
       if ds.any (fun d => d.1 ≥ k ∨ d.2.1 < 4) then (st, .bad "e2es datagram") else
-      let model := modelTunnel ps k ds false
+      let model := if legOK .sudpWork et ct && legOK .sudpVisitor et ct then modelTunnel ps k ds false else nothingTunnel k
       let prop := match parseTunnelResult k impl with
         | some (B, Us, mixed) => some (C03.holdsOnTunnel (expectedB ps ds) B (expectedU ps k ds) Us mixed)
         | none => some false
       (st, verdictOf model impl prop)
     | _, _, _ => (st, .bad "e2es")
-  | ["sudp", pst, _, _, kt, sc] =>
+  | ["sudp", pst, et, ct, kt, sc] =>
+    if !legOK .sudpVisitor et ct then (st, .bad "model: the two ends of the visitor connection build different stacks") else
     -- the real SUDPVisitor against a scripted far side; encryption / compression are transparent
     match kv "ps" pst |>.bind String.toNat?, kv "k" kt |>.bind String.toNat?, kv "s" sc |>.bind parseScript with
     | some ps, some k, some toks =>
@@ -626,7 +747,8 @@ def udpStep (st : Unit) (tok : List String) (impl : String) : Unit × Verdict :=
         | none => some false
       (st, verdictOf model impl prop)
     | _, _, _ => (st, .bad "sudp")
-  | ["spx", pst, _, _, kt, sc] =>
+  | ["spx", pst, et, ct, kt, sc] =>
+    if !legOK .udpWork et ct then (st, .bad "model: the two ends of the udp work connection build different stacks") else
     -- the real frps udp proxy, the harness playing frpc; encryption / compression are transparent
     match kv "ps" pst |>.bind String.toNat?, kv "k" kt |>.bind String.toNat?, kv "s" sc |>.bind parseVScript with
     | some ps, some k, some toks =>
@@ -643,7 +765,8 @@ def udpStep (st : Unit) (tok : List String) (impl : String) : Unit × Verdict :=
         (st, verdictOf (modelSpx k sim W) impl (some (C03.holdsOnSrv sim.must sim.may (W.map Prod.snd) Rs Us bad)))
       | none => (st, verdictOf (modelSpx k sim []) impl (some false))
     | _, _, _ => (st, .bad "spx")
-  | ["cpx", pst, _, _, sc] =>
+  | ["cpx", pst, et, ct, sc] =>
+    if !legOK .sudpWork et ct then (st, .bad "model: the two ends of the sudp work connection build different stacks") else
     -- the real client-side sudp proxy with several scripted work connections; encryption / compression are transparent
     match kv "ps" pst |>.bind String.toNat?, kv "s" sc |>.bind (parsePScript true) with
     | some ps, some toks =>
@@ -659,7 +782,8 @@ def udpStep (st : Unit) (tok : List String) (impl : String) : Unit × Verdict :=
         | none => some false
       (st, verdictOf (modelCpx sim) impl prop)
     | _, _ => (st, .bad "cpx")
-  | ["e2ev", pst, _, _, vt, kt, sc] =>
+  | ["e2ev", pst, et, ct, vt, kt, sc] =>
+    if !(legOK .sudpWork et ct && legOK .sudpVisitor et ct) then (st, .bad "model: sudp stacks differ") else
     -- several real visitors -> real frps -> one real sudp proxy: one work connection per visitor
     match kv "ps" pst |>.bind String.toNat?, kv "v" vt |>.bind String.toNat?, kv "k" kt |>.bind String.toNat?,
           kv "s" sc |>.bind (parsePScript false) with
@@ -675,6 +799,21 @@ def udpStep (st : Unit) (tok : List String) (impl : String) : Unit × Verdict :=
         | none => some false
       (st, verdictOf (modelE2ev k sim) impl prop)
     | _, _, _, _ => (st, .bad "e2ev")
+  | ["upx", pst, et, ct, sc] =>
+    -- the real client-side udp proxy fed a typed stream; the client end is the regenerated configuration
+    if !legOK .udpWork et ct then (st, .bad "model: the two ends of the udp work connection build different stacks") else
+    match kv "ps" pst |>.bind String.toNat?, kv "s" sc |>.bind parseUScript with
+    | some ps, some toks =>
+      if toks.any (fun t => match t with
+          | .dgram u ln _ => u ≥ 256 ∨ ln < 4
+          | _ => false) then (st, .bad "upx token") else
+      let sim := simUScript ps toks
+      let model := s!"B={fmtEntries sim.E};X={sim.extra};R={fmtEntries sim.Rs};socks={sim.keys.length};bad=0"
+      let prop := match parseUpxResult impl with
+        | some (B, X, R, bad) => some (C03.holdsOnUpx sim.E B sim.Rs R X sim.allowed && !bad)
+        | none => some false
+      (st, verdictOf model impl prop)
+    | _, _ => (st, .bad "upx")
   | ["batch", wt, pt] =>
     match kv "w" wt |>.bind String.toNat?, kv "p" pt |>.bind parseItems with
     | some w, some items =>
